@@ -457,6 +457,63 @@ func (tw *tworld) epHopRecord(id ident) (v verdict) {
 	return
 }
 
+// epHopRecordChain attaches a chain of nested, correctly signed hop records of
+// routers R has never heard of (outermost first) to an announcement of X and
+// returns, per chain member, what R afterwards holds under that member's
+// address: every stored record and session must be bound to the member's own
+// address and key (never to another member's).
+func (tw *tworld) epHopRecordChain(members []*m.Address) (misbound []string, panicked string) {
+	info := &m.RouterInfo{Version: "v"}
+	body, _ := cbor.Marshal(&router.AnnouncePingMsg{Info: info, ReturnLabel: 12, Expires: time.Now().Add(10 * time.Minute)})
+	xid := tw.x.Identity()
+	msg, _ := pingMsg(router.PingHeader{PingID: 45, PingType: "announce", AddrHash: xid.Hash, KeyType: xid.Type, PublicKey: xid.PublicKey}, body)
+	f, err := tw.x.FrameBuilder().NewFrameV1(xid.IP, m.RouterAddress, frame.RouterHopPingDeprecated, nil, msg, nil)
+	if err != nil {
+		panic(err)
+	}
+	signRaw(f, f, xid.PrivateKey, sigDRBG)
+	ctx := make([]byte, 16+8+64)
+	copy(ctx[:16], xid.IP.AsSlice())
+	m.PutUint64(ctx[16:24], uint64(f.SequenceTime().UnixMilli()))
+	copy(ctx[24:], f.AuthData())
+	var apx []byte
+	for i := len(members) - 1; i >= 0; i-- {
+		att := hopRecord{Router: members[i].PublicAddress, Delay: uint16(5 + i), ForwardLabel: m.SwitchLabel(3 + i), ReturnLabel: m.SwitchLabel(40 + i), NextAttachment: apx}
+		data, err := cbor.Marshal(att)
+		if err != nil {
+			panic(err)
+		}
+		sig, _ := members[i].PrivateKey.Sign(nil, data, &ed25519.Options{Context: string(ctx)})
+		apx = append(data, sig...)
+	}
+	if err := f.SetAppendixData(apx); err != nil {
+		panic(err)
+	}
+	raw, _ := f.FrameDataWithMargins(0, 0)
+	raw = append([]byte(nil), raw...)
+	f.ReturnToPool()
+	npan := len(tw.w.Panics)
+	tw.w.Inject(tw.x, tw.r, raw)
+	if len(tw.w.Panics) > npan {
+		panicked = tw.w.Panics[len(tw.w.Panics)-1]
+	}
+	for i, mb := range members {
+		if rec, err := tw.r.Store.GetRouter(mb.IP); err == nil && rec != nil && rec.Address != nil {
+			if rec.Address.IP != mb.IP || string(rec.Address.PublicKey) != string(mb.PublicKey) {
+				misbound = append(misbound, fmt.Sprintf("stored record of chain member %d (%s) holds address %s and another member's key", i, mb.IP, rec.Address.IP))
+			} else if rec.Address.VerifyAddress() != nil {
+				misbound = append(misbound, fmt.Sprintf("stored record of chain member %d does not verify", i))
+			}
+		}
+		if se := tw.r.State().GetSession(mb.IP); se != nil && se.Address() != nil {
+			if se.Address().IP != mb.IP || string(se.Address().PublicKey) != string(mb.PublicKey) {
+				misbound = append(misbound, fmt.Sprintf("session of chain member %d (%s) is bound to address %s and another member's key", i, mb.IP, se.Address().IP))
+			}
+		}
+	}
+	return
+}
+
 // epHopRecordKnownRouter presents, as a hop record, the address of a router R
 // already knows (its peer X) together with a FOREIGN key that also signs the
 // record. Acceptance is observed as "the announcement was processed" (no handler
@@ -577,7 +634,7 @@ func epPeeringRequest(t *testing.T, id ident) (v verdict) {
 func TestC01(t *testing.T) {
 	env := kit.GetEnv()
 	rep := kit.NewReport("C01", env)
-	rep.Rule = "per base identity: the valid identity, every single field deviation (128 address bit flips + 7 foreign/invalid addresses, 14 other known + 4 unknown hash names incl. empty and 300-byte, 5 key-type names incl. empty/256-byte, 256 key bit flips + 5 odd key sizes + zero key, 3 easing values) at all six entry points; every PAIR of deviations of different fields at the pure entry points; ~50 self-consistent forgeries (address recomputed as the digest of a malformed identity: 5 hashes x 5 key-type names x 6 key sizes) and 6 well-formed identities whose matching digest lies outside fd00::/8, at all entry points; the address of an already known router presented with a foreign key (hop record, ping header); presentation sequences bad->good and good->bad on one long-lived router; generator over all subsets of a 5-prefix acceptable alphabet x all subsets of a 4-prefix ignore alphabet x maxEasing {0,3} (satisfiable ones + cheap unsatisfiable ones); non-trivial = case deviates from the valid identity; distinct = distinct (identity, entry point)"
+	rep.Rule = "per base identity: the valid identity, every single field deviation (128 address bit flips + 7 foreign/invalid addresses, 14 other known + 4 unknown hash names incl. empty and 300-byte, 5 key-type names incl. empty/256-byte, 256 key bit flips + 5 odd key sizes + zero key, 3 easing values) at all six entry points; every PAIR of deviations of different fields at the pure entry points; ~50 self-consistent forgeries (address recomputed as the digest of a malformed identity: 5 hashes x 5 key-type names x 6 key sizes) and 6 well-formed identities whose matching digest lies outside fd00::/8, at all entry points; the address of an already known router presented with a foreign key (hop record, ping header); presentation sequences bad->good and good->bad on one long-lived router; announcements with chains of 2 and 3 nested hop records of unknown routers (every resulting record and session bound to its own address and key); generator over all subsets of a 5-prefix acceptable alphabet x all subsets of a 4-prefix ignore alphabet x maxEasing {0,3} (satisfiable ones + cheap unsatisfiable ones), each call sharing its ignore list with an earlier call for another acceptable set; non-trivial = case deviates from the valid identity; distinct = distinct (identity, entry point)"
 	rep.Assumptions = []string{
 		"the reference predicate uses crop's hash primitives (not m/address.go) to recompute digests",
 		"key material inside the generator comes from the process RNG: the prefix-configuration space is exhaustive, the key space cannot be",
@@ -679,6 +736,27 @@ func TestC01(t *testing.T) {
 				v.accepted = string(tw.storedKey(id.ip)) != string(pool[4].PublicKey) || kit.TableKey(tw.r) != before
 				return v
 			}(), false)
+		}
+
+		// chains of two and three hop records of routers unknown so far: every
+		// record and session that results is bound to its own address and key.
+		if mine() {
+			for n := 2; n <= 3; n++ {
+				tw := newTWorld()
+				members := []*m.Address{chainPool[(bi*3)%len(chainPool)], chainPool[(bi*3+1)%len(chainPool)], chainPool[(bi*3+2)%len(chainPool)]}[:n]
+				mis, pan := tw.epHopRecordChain(members)
+				evals++
+				nontrivial++
+				switch {
+				case pan != "":
+					rep.Violate("hop-record-chain/panic", fmt.Sprintf("announcement with %d nested hop records of unknown routers panicked: %s", n, pan), n)
+				case len(mis) > 0:
+					rep.Violate("hop-record-chain/record-or-session-bound-to-foreign-key", fmt.Sprintf("announcement with %d nested hop records of unknown routers: %s", n, strings.Join(mis, "; ")), n)
+					rep.Outcome("hop-record-chain/misbound")
+				default:
+					rep.Outcome("hop-record-chain/ok")
+				}
+			}
 		}
 
 		// private key corruptions at the storage entry point.
@@ -813,6 +891,8 @@ func flipHex(h string, nibble int) string {
 	return string(b)
 }
 
+var chainPool = kit.RoutablePool("c01-chain", 9)
+
 func generator(rep *kit.Report, env kit.Env, evals, nontrivial *int64) {
 	accept := []netip.Prefix{
 		netip.MustParsePrefix("fd00::/9"), netip.MustParsePrefix("fd80::/9"), netip.MustParsePrefix("fd10::/12"),
@@ -867,8 +947,20 @@ func generator(rep *kit.Report, env kit.Env, evals, nontrivial *int64) {
 				*nontrivial++
 				var a *m.Address
 				var err error
-				pan, pv := kit.Try(func() { a, _, err = m.GenerateRoutableAddress(context.Background(), acc, ign, maxEasing) })
-				desc := fmt.Sprintf("acceptable=%v ignore=%v maxEasing=%d", acc, ign, maxEasing)
+				// the caller's lists are shared with an earlier call that used another
+				// acceptable set (as the command line tool does with its package-level
+				// ignore list); the generator must leave them as they are.
+				ignArg := append([]netip.Prefix(nil), ign...)
+				accArg := append([]netip.Prefix(nil), acc...)
+				if len(ignArg) > 0 {
+					other := []netip.Prefix{accept[n%2]} // one of the two /9 halves: satisfiable under every ignore subset
+					kit.Try(func() { _, _, _ = m.GenerateRoutableAddress(context.Background(), other, ignArg, 0) })
+				}
+				pan, pv := kit.Try(func() { a, _, err = m.GenerateRoutableAddress(context.Background(), accArg, ignArg, maxEasing) })
+				desc := fmt.Sprintf("acceptable=%v ignore=%v maxEasing=%d (ignore list shared with an earlier call)", acc, ign, maxEasing)
+				if fmt.Sprint(ignArg) != fmt.Sprint(ign) || fmt.Sprint(accArg) != fmt.Sprint(acc) {
+					rep.Violate("generator/caller-lists-modified", fmt.Sprintf("the generator modified the caller's prefix lists: ignore %v -> %v, acceptable %v -> %v", ign, ignArg, acc, accArg), desc)
+				}
 				switch {
 				case pan:
 					rep.Violate("generator/panic", fmt.Sprintf("generator panicked: %v; %s", pv, desc), desc)
